@@ -144,6 +144,64 @@ theorem prologue_fields (s : State) :
   | none => simp [h]
   | some a => simp
 
+theorem holds_cons_inv (st : List (Cid × Blk)) (c : Cid) (b : Blk) (x : Cid) (h : holds ((c, b) :: st) x = true) :
+    holds st x = true ∨ x = c := by
+  by_cases hx : x = c
+  · exact Or.inr hx
+  · left
+    unfold holds storeGet at h ⊢
+    simp only [List.find?_cons] at h
+    have : (c == x) = false := by simp; exact fun h' => hx h'.symm
+    simpa [this] using h
+
+/-- a (re-)run of the load of `c` adds at most the block of `c` to the store -/
+theorem run_store_origin (s : State) (p : Path) (c : Cid) :
+    ∀ x, holds (run s p c).1.store x = true → holds s.store x = true ∨ x = c := by
+  have hw := waitRemote_rs (s.rq.q.length + 1) s
+  unfold run
+  dsimp only
+  generalize waitRemote (s.rq.q.length + 1) s = w at hw
+  obtain ⟨s1, wt⟩ := w
+  simp only at hw
+  cases wt with
+  | blocked => intro x hx; left; rw [← hw.2]; exact hx
+  | err e => dsimp only; intro x hx; left; rw [← hw.2]; exact hx
+  | offline => dsimp only; intro x hx; left; rw [← hw.2]; exact hx
+  | remote =>
+    dsimp only
+    have hsu := stillOnUnfollowed_rs s1 p
+    generalize stillOnUnfollowed s1 p = su at hsu
+    obtain ⟨s2, still⟩ := su
+    simp only at hsu
+    dsimp only
+    have hst2 : s2.store = s.store := hsu.2.trans hw.2
+    split
+    · intro x hx; left; rw [← hst2]; exact hx
+    · split
+      · intro x hx; left; rw [← hst2]; exact hx
+      · rename_i head _ _
+        split
+        · intro x hx; left; rw [← hst2]; exact hx
+        · have hra := recordRemoteAttempt_rs { s2 with rq := s2.rq.consume } p head.action
+          split
+          · intro x hx; left
+            simp only at hx
+            rw [hra.2] at hx
+            rw [← hst2]; exact hx
+          · intro x hx
+            simp only at hx
+            rcases holds_cons_inv _ _ _ _ hx with h | h
+            · left; rw [hra.2] at h; rw [← hst2]; exact h
+            · exact Or.inr h
+
+theorem load_store_origin (s : State) (p : Path) (c : Cid) :
+    ∀ x, holds (load s p c).1.store x = true → holds s.store x = true ∨ x = c := by
+  intro x hx
+  rw [load_eq] at hx
+  have := run_store_origin (prologue s) p c x hx
+  rw [(prologue_fields s).2.2.1] at this
+  exact this
+
 /-- what `BlockReadOpener` does to the record (with the parked attempt written out) and the store -/
 theorem load_reach (s : State) (p : Path) (c : Cid) :
     ((load s p c).2 = .blocked →
@@ -229,18 +287,21 @@ open GS.Loader GS.Requestor GS.PauseResume
     request is running and every one of them was answered with data (block count = their number), the
     traversal record is their record and their blocks are in the store; a parked load is the load of
     the node under the cursor -/
-structure Q (lt : LT) (r : Requestor.State) (loaded : LT) : Prop where
+structure Q (lt : LT) (st0 : List (Cid × Blk)) (r : Requestor.State) (loaded : LT) : Prop where
+  mono  : ∀ c, holds st0 c = true → holds r.L.store c = true
+  orig  : ∀ c, holds r.L.store c = true → holds st0 c = true ∨ ∃ m ∈ lt, m.cid = c
   split : lt = loaded ++ r.todo
   count : r.nBlocks ≤ loaded.length
   pend  : ∀ p c, r.L.pending = some (p, c) →
             r.L.mra = none ∧ ∃ n rest, r.todo = n :: rest ∧ p = n.path ∧ c = n.cid
   rl    : r.phase = .running → r.nBlocks = loaded.length → RL loaded r.L
 
-theorem Q.frame {lt : LT} {r r' : Requestor.State} {loaded : LT} (h : Q lt r loaded)
+theorem Q.frame {lt : LT} {st0 : List (Cid × Blk)} {r r' : Requestor.State} {loaded : LT} (h : Q lt st0 r loaded)
     (htodo : r'.todo = r.todo) (hnb : r'.nBlocks = r.nBlocks) (hph : r'.phase = .running → r.phase = .running)
     (hpd : r'.L.pending = r.L.pending) (hmra : r'.L.mra = r.L.mra) (hrec : r'.L.record = r.L.record)
-    (hst : r'.L.store = r.L.store) : Q lt r' loaded := by
-  refine ⟨by rw [htodo]; exact h.split, by rw [hnb]; exact h.count, ?_, ?_⟩
+    (hst : r'.L.store = r.L.store) : Q lt st0 r' loaded := by
+  refine ⟨fun c hc => by rw [hst]; exact h.mono c hc, fun c hc => h.orig c (by rw [← hst]; exact hc),
+    by rw [htodo]; exact h.split, by rw [hnb]; exact h.count, ?_, ?_⟩
   · intro p c hp
     rw [hpd] at hp
     rw [hmra, htodo]
@@ -256,16 +317,19 @@ theorem handle_cases (s : Requestor.State) (n : LNode) (rest : LT) (res : Result
         (handle s n rest res).1 = { s with todo := skipSub n rest }) ∨
     ((handle s n rest res).2.2 = false ∧ (handle s n rest res).1.phase = .finished ∧
         (handle s n rest res).1.todo = s.todo ∧ (handle s n rest res).1.nBlocks = s.nBlocks ∧
-        (handle s n rest res).1.L.pending = s.L.pending) := by
+        (handle s n rest res).1.L.pending = s.L.pending ∧ (handle s n rest res).1.L.store = s.L.store) := by
   have hfin : ∀ s' : Requestor.State, (finish s').1.phase = .finished ∧ (finish s').1.todo = s'.todo ∧
-      (finish s').1.nBlocks = s'.nBlocks ∧ (finish s').1.L.pending = s'.L.pending := by
-    intro s'; unfold finish; exact ⟨rfl, rfl, rfl, rfl⟩
+      (finish s').1.nBlocks = s'.nBlocks ∧ (finish s').1.L.pending = s'.L.pending ∧
+      (finish s').1.L.store = s'.L.store := by
+    intro s'; unfold finish; exact ⟨rfl, rfl, rfl, rfl, rfl⟩
   have hfw : ∀ e, (failWith s e).1.phase = .finished ∧ (failWith s e).1.todo = s.todo ∧
-      (failWith s e).1.nBlocks = s.nBlocks ∧ (failWith s e).1.L.pending = s.L.pending := by
+      (failWith s e).1.nBlocks = s.nBlocks ∧ (failWith s e).1.L.pending = s.L.pending ∧
+      (failWith s e).1.L.store = s.L.store := by
     intro e
     unfold failWith
     have := hfin { s with L := Loader.setOnline s.L false }
-    exact ⟨this.1, this.2.1, this.2.2.1, this.2.2.2.trans (setOnline_frame s.L false).1⟩
+    exact ⟨this.1, this.2.1, this.2.2.1, this.2.2.2.1.trans (setOnline_frame s.L false).1,
+      this.2.2.2.2.trans (setOnline_frame s.L false).2.2⟩
   unfold handle
   cases herr : res.err with
   | none => left; exact ⟨rfl, rfl, rfl⟩
@@ -273,32 +337,37 @@ theorem handle_cases (s : Requestor.State) (n : LNode) (rest : LT) (res : Result
     right
     simp only
     split
-    · right; have := hfin s; exact ⟨rfl, this.1, this.2.1, this.2.2.1, this.2.2.2⟩
+    · right; have := hfin s; exact ⟨rfl, this.1, this.2.1, this.2.2.1, this.2.2.2.1, this.2.2.2.2⟩
     · cases e with
       | missing c p =>
         simp only
         split
-        · right; have := hfw .other; exact ⟨rfl, this.1, this.2.1, this.2.2.1, this.2.2.2⟩
+        · right; have := hfw .other; exact ⟨rfl, this.1, this.2.1, this.2.2.1, this.2.2.2.1, this.2.2.2.2⟩
         · left; exact ⟨⟨c, p, rfl⟩, rfl, rfl⟩
-      | incorrect a b q => right; have := hfw (.load (.incorrect a b q)); exact ⟨rfl, this.1, this.2.1, this.2.2.1, this.2.2.2⟩
-      | extraData => right; have := hfw (.load .extraData); exact ⟨rfl, this.1, this.2.1, this.2.2.1, this.2.2.2⟩
-      | nothingLeft => right; have := hfw (.load .nothingLeft); exact ⟨rfl, this.1, this.2.1, this.2.2.1, this.2.2.2⟩
-      | retryNone => right; have := hfw (.load .retryNone); exact ⟨rfl, this.1, this.2.1, this.2.2.1, this.2.2.2⟩
+      | incorrect a b q => right; have := hfw (.load (.incorrect a b q)); exact ⟨rfl, this.1, this.2.1, this.2.2.1, this.2.2.2.1, this.2.2.2.2⟩
+      | extraData => right; have := hfw (.load .extraData); exact ⟨rfl, this.1, this.2.1, this.2.2.1, this.2.2.2.1, this.2.2.2.2⟩
+      | nothingLeft => right; have := hfw (.load .nothingLeft); exact ⟨rfl, this.1, this.2.1, this.2.2.1, this.2.2.2.1, this.2.2.2.2⟩
+      | retryNone => right; have := hfw (.load .retryNone); exact ⟨rfl, this.1, this.2.1, this.2.2.1, this.2.2.2.1, this.2.2.2.2⟩
 
 /-- the invariant after the result `res` of the load of the node under the cursor has been handled;
     `base` is the requestor state handed to `handle` (its loader `l1` is the loader after the load) -/
-theorem Q_after (lt : LT) (r : Requestor.State) (loaded : LT) (n : LNode) (rest : LT) (hq : Q lt r loaded)
+theorem Q_after (lt : LT) (st0 : List (Cid × Blk)) (r : Requestor.State) (loaded : LT) (n : LNode) (rest : LT) (hq : Q lt st0 r loaded)
     (htodo : r.todo = n :: rest) (base : Requestor.State) (res : Result)
     (hbt : base.todo = r.todo) (hbn : base.nBlocks = r.nBlocks) (hbp : base.phase = r.phase)
     (hrec : r.phase = .running → r.nBlocks = loaded.length →
       recP base.L.record base.L.mra = (recOfLT loaded).record n.path n.cid res.err.isNone)
     (hpn : base.L.pending = none)
     (hmono : ∀ x, holds r.L.store x = true → holds base.L.store x = true)
-    (hok : res.err = none → holds base.L.store n.cid = true) :
-    ∃ loaded', Q lt (handle base n rest res).1 loaded' := by
-  rcases handle_cases base n rest res with ⟨he, _, hs⟩ | ⟨he, _, hs⟩ | ⟨_, hph, htd, hnb, hpd⟩
+    (hok : res.err = none → holds base.L.store n.cid = true)
+    (horig : ∀ x, holds base.L.store x = true → holds r.L.store x = true ∨ x = n.cid) :
+    ∃ loaded', Q lt st0 (handle base n rest res).1 loaded' := by
+  have hnlt : n ∈ lt := by rw [hq.split, htodo]; simp
+  have hm' : ∀ c, holds st0 c = true → holds base.L.store c = true := fun c hc => hmono c (hq.mono c hc)
+  have ho' : ∀ c, holds base.L.store c = true → holds st0 c = true ∨ ∃ m ∈ lt, m.cid = c := fun c hc =>
+    (horig c hc).elim (hq.orig c) (fun h => Or.inr ⟨n, hnlt, h.symm⟩)
+  rcases handle_cases base n rest res with ⟨he, _, hs⟩ | ⟨he, _, hs⟩ | ⟨_, hph, htd, hnb, hpd, hsto⟩
   · rw [hs]
-    refine ⟨loaded ++ [n], ?_, ?_, ?_, ?_⟩
+    refine ⟨loaded ++ [n], hm', ho', ?_, ?_, ?_, ?_⟩
     · simp only; rw [hq.split, htodo]; simp
     · simp only [List.length_append, List.length_singleton]; have := hq.count; omega
     · intro p c hp; simp only at hp; rw [hpn] at hp; cases hp
@@ -319,7 +388,7 @@ theorem Q_after (lt : LT) (r : Requestor.State) (loaded : LT) (n : LNode) (rest 
         · exact hmono _ (hrl.held m hm)
         · exact hok he
   · rw [hs]
-    refine ⟨loaded ++ n :: subOf n rest, ?_, ?_, ?_, ?_⟩
+    refine ⟨loaded ++ n :: subOf n rest, hm', ho', ?_, ?_, ?_, ?_⟩
     · simp only; rw [hq.split, htodo, List.append_assoc, List.cons_append, sub_skip]
     · simp only [List.length_append, List.length_cons]; have := hq.count; omega
     · intro p c hp; simp only at hp; rw [hpn] at hp; cases hp
@@ -327,29 +396,32 @@ theorem Q_after (lt : LT) (r : Requestor.State) (loaded : LT) (n : LNode) (rest 
       simp only [List.length_append, List.length_cons] at hn
       have := hq.count
       omega
-  · refine ⟨loaded, ?_, ?_, ?_, ?_⟩
+  · refine ⟨loaded, by rw [hsto]; exact hm', by rw [hsto]; exact ho', ?_, ?_, ?_, ?_⟩
     · rw [htd, hbt]; exact hq.split
     · rw [hnb, hbn]; exact hq.count
     · intro p c hp; rw [hpd, hpn] at hp; cases hp
     · intro hr; rw [hph] at hr; cases hr
 
-theorem Q_loadNode (lt : LT) (r : Requestor.State) (loaded : LT) (n : LNode) (rest : LT) (hq : Q lt r loaded)
+theorem Q_loadNode (lt : LT) (st0 : List (Cid × Blk)) (r : Requestor.State) (loaded : LT) (n : LNode) (rest : LT) (hq : Q lt st0 r loaded)
     (htodo : r.todo = n :: rest) :
-    ((loadNode r n).2.2 = none → Q lt (loadNode r n).1 loaded) ∧
-    (∀ res, (loadNode r n).2.2 = some res → ∃ loaded', Q lt (handle (loadNode r n).1 n rest res).1 loaded') := by
+    ((loadNode r n).2.2 = none → Q lt st0 (loadNode r n).1 loaded) ∧
+    (∀ res, (loadNode r n).2.2 = some res → ∃ loaded', Q lt st0 (handle (loadNode r n).1 n rest res).1 loaded') := by
   have hlr := load_reach r.L n.path n.cid
   have hlrec := load_record_done r.L n.path n.cid
   have hlp := load_pending r.L n.path n.cid
+  have hso := load_store_origin r.L n.path n.cid
+  have hnlt : n ∈ lt := by rw [hq.split, htodo]; simp
   unfold loadNode
-  generalize Loader.load r.L n.path n.cid = ld at hlr hlrec hlp
+  generalize Loader.load r.L n.path n.cid = ld at hlr hlrec hlp hso
   obtain ⟨l1, out⟩ := ld
-  simp only at hlr hlrec hlp
+  simp only at hlr hlrec hlp hso
   cases out with
   | blocked =>
     dsimp only
     obtain ⟨h1, h2, h3, h4⟩ := hlr.1 rfl
     refine ⟨fun _ => ?_, fun res h => by cases h⟩
-    refine ⟨hq.split, hq.count, ?_, ?_⟩
+    refine ⟨fun c hc => by simp only; rw [h3]; exact hq.mono c hc,
+      fun c hc => hq.orig c (by simp only at hc; rw [h3] at hc; exact hc), hq.split, hq.count, ?_, ?_⟩
     · intro p c hp
       simp only at hp
       rw [h4] at hp
@@ -369,11 +441,12 @@ theorem Q_loadNode (lt : LT) (r : Requestor.State) (loaded : LT) (n : LNode) (re
       obtain ⟨s2, hrt, hs2s, hs2r, hs2m⟩ := retry_some _ _ hm'
       have hlr2 := load_reach s2 n.path n.cid
       have hlrec2 := load_record_done s2 n.path n.cid
+      have hso2 := load_store_origin s2 n.path n.cid
       rw [hrt]
-      simp only at hlr2 hlrec2 ⊢
-      generalize Loader.load s2 n.path n.cid = ld2 at hlr2 hlrec2
+      simp only at hlr2 hlrec2 hso2 ⊢
+      generalize Loader.load s2 n.path n.cid = ld2 at hlr2 hlrec2 hso2
       obtain ⟨l3, out3⟩ := ld2
-      simp only at hlr2 hlrec2
+      simp only at hlr2 hlrec2 hso2
       have hs2rec : recP s2.record s2.mra = recP r.L.record r.L.mra := by
         rw [hs2m, hs2r, setOnline_record, hlrec]; rfl
       have hs2st : s2.store = l1.store := by rw [hs2s, (setOnline_frame l1 true).2.2]
@@ -382,7 +455,10 @@ theorem Q_loadNode (lt : LT) (r : Requestor.State) (loaded : LT) (n : LNode) (re
         dsimp only
         obtain ⟨h1, h2, h3, h4⟩ := hlr2.1 rfl
         refine ⟨fun _ => ?_, fun res h => by cases h⟩
-        refine ⟨hq.split, hq.count, ?_, ?_⟩
+        have ho3 : ∀ x, holds l3.store x = true → holds r.L.store x = true ∨ x = n.cid := fun x hx =>
+          (hso2 x hx).elim (fun h => hso x (by rw [← hs2st]; exact h)) Or.inr
+        refine ⟨fun c hc => by simp only; rw [h3, hs2st]; exact g3 c (hq.mono c hc),
+          fun c hc => (ho3 c hc).elim (hq.orig c) (fun h => Or.inr ⟨n, hnlt, h.symm⟩), hq.split, hq.count, ?_, ?_⟩
         · intro p c hp
           simp only at hp
           rw [h4] at hp
@@ -399,23 +475,24 @@ theorem Q_loadNode (lt : LT) (r : Requestor.State) (loaded : LT) (n : LNode) (re
         refine ⟨fun h => (by cases h), fun res' h => ?_⟩
         simp only [Option.some.injEq] at h
         subst h
-        exact Q_after lt r loaded n rest hq htodo _ r2 rfl rfl rfl
+        exact Q_after lt st0 r loaded n rest hq htodo _ r2 rfl rfl rfl
           (fun hr hn => by simp only; rw [k1, hs2rec, (hq.rl hr hn).recd])
           k2 (fun x hx => k3 x (by rw [hs2st]; exact g3 x hx)) k4
+          (fun x hx => (hso2 x hx).elim (fun h => hso x (by rw [← hs2st]; exact h)) Or.inr)
     · refine ⟨fun h => (by cases h), fun res' h => ?_⟩
       simp only [Option.some.injEq] at h
       subst h
-      exact Q_after lt r loaded n rest hq htodo _ res rfl rfl rfl
-        (fun hr hn => by simp only; rw [g1, (hq.rl hr hn).recd]) g2 g3 g4
+      exact Q_after lt st0 r loaded n rest hq htodo _ res rfl rfl rfl
+        (fun hr hn => by simp only; rw [g1, (hq.rl hr hn).recd]) g2 g3 g4 hso
 
 end GS.C06
 
 namespace GS.C06
 open GS.Loader GS.Requestor GS.PauseResume
 
-def QE (lt : LT) (r : Requestor.State) : Prop := ∃ loaded, Q lt r loaded
+def QE (lt : LT) (st0 : List (Cid × Blk)) (r : Requestor.State) : Prop := ∃ loaded, Q lt st0 r loaded
 
-theorem drive_Q (lt : LT) : ∀ (fuel : Nat) (r : Requestor.State), QE lt r → QE lt (drive fuel r).1 := by
+theorem drive_Q (lt : LT) (st0 : List (Cid × Blk)) : ∀ (fuel : Nat) (r : Requestor.State), QE lt st0 r → QE lt st0 (drive fuel r).1 := by
   intro fuel
   induction fuel with
   | zero => intro r h; exact h
@@ -433,7 +510,7 @@ theorem drive_Q (lt : LT) : ∀ (fuel : Nat) (r : Requestor.State), QE lt r → 
         rw [this] at h; cases h
       | cons n rest =>
         simp only
-        have hs := Q_loadNode lt r loaded n rest hq htodo
+        have hs := Q_loadNode lt st0 r loaded n rest hq htodo
         generalize loadNode r n = ln at hs
         obtain ⟨r1, ev1, ores⟩ := ln
         cases ores with
@@ -448,10 +525,10 @@ theorem drive_Q (lt : LT) : ∀ (fuel : Nat) (r : Requestor.State), QE lt r → 
           | true => simp only; exact ih r2 ⟨loaded', hq'⟩
           | false => exact ⟨loaded', hq'⟩
 
-theorem Q_wake (lt : LT) (r : Requestor.State) (loaded : LT) (hq : Q lt r loaded) :
-    (∀ l1, Loader.wake r.L = (l1, none) → Q lt { r with L := l1 } loaded) ∧
+theorem Q_wake (lt : LT) (st0 : List (Cid × Blk)) (r : Requestor.State) (loaded : LT) (hq : Q lt st0 r loaded) :
+    (∀ l1, Loader.wake r.L = (l1, none) → Q lt st0 { r with L := l1 } loaded) ∧
     (∀ l1 res n rest, Loader.wake r.L = (l1, some res) → r.todo = n :: rest →
-      ∃ loaded', Q lt (handle { r with L := l1 } n rest res).1 loaded') := by
+      ∃ loaded', Q lt st0 (handle { r with L := l1 } n rest res).1 loaded') := by
   cases hpd : r.L.pending with
   | none =>
     rw [wake_none r.L hpd]
@@ -464,10 +541,11 @@ theorem Q_wake (lt : LT) (r : Requestor.State) (loaded : LT) (hq : Q lt r loaded
     obtain ⟨hm, n', rest', htd, hp, hc⟩ := hq.pend p c hpd
     have hws := wake_some r.L p c hpd
     have hrr := run_reach_parked r.L p c hm
+    have hso := run_store_origin r.L p c
     cases hrun : Loader.run r.L p c with
     | mk l out =>
-      rw [hrun] at hrr
-      simp only at hrr
+      rw [hrun] at hrr hso
+      simp only at hrr hso
       cases out with
       | blocked =>
         rw [hws.2 l hrun]
@@ -475,7 +553,8 @@ theorem Q_wake (lt : LT) (r : Requestor.State) (loaded : LT) (hq : Q lt r loaded
         refine ⟨fun l1 h => ?_, fun l1 res n rest h => by cases h⟩
         simp only [Prod.mk.injEq, and_true] at h
         subst h
-        refine ⟨hq.split, hq.count, ?_, ?_⟩
+        refine ⟨fun c0 hc => by simp only; rw [h3]; exact hq.mono c0 hc,
+          fun c0 hc => hq.orig c0 (by simp only at hc; rw [h3] at hc; exact hc), hq.split, hq.count, ?_, ?_⟩
         · intro p' c' hp'
           simp only at hp'
           rw [h4] at hp'
@@ -494,7 +573,7 @@ theorem Q_wake (lt : LT) (r : Requestor.State) (loaded : LT) (hq : Q lt r loaded
         simp only [List.cons.injEq] at htodo
         obtain ⟨rfl, rfl⟩ := htodo
         subst hp; subst hc
-        exact Q_after lt r loaded n' rest' hq htd _ res0 rfl rfl rfl
+        exact Q_after lt st0 r loaded n' rest' hq htd _ res0 rfl rfl rfl
           (fun hr hn => by
             have := (hq.rl hr hn).recd
             rw [hm] at this
@@ -502,11 +581,11 @@ theorem Q_wake (lt : LT) (r : Requestor.State) (loaded : LT) (hq : Q lt r loaded
             show (r.L.record).record _ _ _ = _
             have h0 : recP r.L.record none = r.L.record := rfl
             rw [← h0, this])
-          k2 k3 k4
+          k2 k3 k4 hso
 
-theorem resume_Q (lt : LT) (r : Requestor.State) (h : QE lt r) : QE lt (Requestor.resume r).1 := by
+theorem resume_Q (lt : LT) (st0 : List (Cid × Blk)) (r : Requestor.State) (h : QE lt st0 r) : QE lt st0 (Requestor.resume r).1 := by
   obtain ⟨loaded, hq⟩ := h
-  have hw := Q_wake lt r loaded hq
+  have hw := Q_wake lt st0 r loaded hq
   obtain ⟨L, todo, ph, rs, nb, us, cc, te⟩ := r
   unfold Requestor.resume
   simp only at hw ⊢
@@ -532,7 +611,7 @@ theorem resume_Q (lt : LT) (r : Requestor.State) (h : QE lt r) : QE lt (Requesto
         generalize handle _ n rest res = hd at hq' ⊢
         obtain ⟨r2, evs, go⟩ := hd
         cases go with
-        | true => simp only; exact drive_Q lt _ r2 ⟨loaded', hq'⟩
+        | true => simp only; exact drive_Q lt st0 _ r2 ⟨loaded', hq'⟩
         | false => exact ⟨loaded', hq'⟩
 
 theorem applyStatus_frameQ (s : Requestor.State) (st : Nat) :
@@ -550,40 +629,40 @@ theorem applyStatus_frameQ (s : Requestor.State) (st : Nat) :
     · exact ⟨rfl, rfl, rfl, f.1, f.2.1, g, f.2.2, rfl, rfl⟩
   · exact ⟨rfl, rfl, rfl, rfl, rfl, rfl, rfl, rfl, rfl⟩
 
-theorem ingestStatus_Q (lt : LT) (r : Requestor.State) (loaded : LT) (hq : Q lt r loaded) (st : Nat)
+theorem ingestStatus_Q (lt : LT) (st0 : List (Cid × Blk)) (r : Requestor.State) (loaded : LT) (hq : Q lt st0 r loaded) (st : Nat)
     (md : List (Cid × Action)) (bl : List (Cid × Blk)) :
-    Q lt (applyStatus { r with L := Loader.ingest r.L md bl } st) loaded := by
+    Q lt st0 (applyStatus { r with L := Loader.ingest r.L md bl } st) loaded := by
   have f := applyStatus_frameQ { r with L := Loader.ingest r.L md bl } st
   have g := ingest_frame r.L md bl
   have g' := ingest_record r.L md bl
   exact hq.frame f.1 f.2.1 (fun h => by rw [f.2.2.1] at h; exact h) (f.2.2.2.1.trans g.1)
     (f.2.2.2.2.1.trans g.2.1) (f.2.2.2.2.2.1.trans g') (f.2.2.2.2.2.2.1.trans g.2.2)
 
-theorem message_Q (lt : LT) (r : Requestor.State) (h : QE lt r) (f k : Bool) (st : Nat)
-    (md : List (Cid × Action)) (bl : List (Cid × Blk)) : QE lt (message r f k st md bl).1 := by
+theorem message_Q (lt : LT) (st0 : List (Cid × Blk)) (r : Requestor.State) (h : QE lt st0 r) (f k : Bool) (st : Nat)
+    (md : List (Cid × Action)) (bl : List (Cid × Blk)) : QE lt st0 (message r f k st md bl).1 := by
   unfold message
   split
   · exact h
   · obtain ⟨loaded, hq⟩ := h
-    exact resume_Q lt _ ⟨loaded, ingestStatus_Q lt r loaded hq st md bl⟩
+    exact resume_Q lt st0 _ ⟨loaded, ingestStatus_Q lt st0 r loaded hq st md bl⟩
 
-theorem feed_Q (lt : LT) : ∀ (msgs : List Requestor.Msg) (r : Requestor.State), QE lt r → QE lt (feed r msgs).1 := by
+theorem feed_Q (lt : LT) (st0 : List (Cid × Blk)) : ∀ (msgs : List Requestor.Msg) (r : Requestor.State), QE lt st0 r → QE lt st0 (feed r msgs).1 := by
   intro msgs
   induction msgs with
   | nil => intro r h; exact h
   | cons m rest ih =>
     intro r h
     simp only [feed]
-    exact ih _ (message_Q lt r h _ _ _ _ _)
+    exact ih _ (message_Q lt st0 r h _ _ _ _ _)
 
 theorem Q_start (st : List (Cid × Blk)) (lt : LT) (u : Nat) :
-    Q lt ({ ({ L := { store := st } } : Requestor.State) with todo := lt, phase := .running, userSkip := u }) [] := by
-  refine ⟨rfl, Nat.le_refl _, fun p c h => (by cases h), fun _ _ => ⟨rfl, fun m hm => (by cases hm)⟩⟩
+    Q lt st ({ ({ L := { store := st } } : Requestor.State) with todo := lt, phase := .running, userSkip := u }) [] := by
+  refine ⟨fun c h => h, fun c h => Or.inl h, rfl, Nat.le_refl _, fun p c h => (by cases h), fun _ _ => ⟨rfl, fun m hm => (by cases hm)⟩⟩
 
 theorem request_Q (st : List (Cid × Blk)) (lt : LT) (u : Nat) :
-    QE lt (Requestor.request { L := { store := st } } lt u).1 := by
+    QE lt st (Requestor.request { L := { store := st } } lt u).1 := by
   unfold Requestor.request
-  exact drive_Q lt _ _ ⟨[], Q_start st lt u⟩
+  exact drive_Q lt st _ _ ⟨[], Q_start st lt u⟩
 
 end GS.C06
 
@@ -712,7 +791,7 @@ theorem deliver_splitAt (k : Nat) (P : Requestor.State → Prop) (hPres : PresAt
 
 /-- the predicate carried to the pause point: the reachability invariant, a live request context, a
     running request -/
-def PQ (lt : LT) (r : Requestor.State) : Prop := QE lt r ∧ r.ctxCancelled = false ∧ r.phase = .running
+def PQ (lt : LT) (st0 : List (Cid × Blk)) (r : Requestor.State) : Prop := QE lt st0 r ∧ r.ctxCancelled = false ∧ r.phase = .running
 
 theorem loadNode_ctx (r : Requestor.State) (n : LNode) :
     (loadNode r n).1.ctxCancelled = r.ctxCancelled ∧ (loadNode r n).1.phase = r.phase ∧
@@ -724,10 +803,10 @@ theorem loadNode_ctx (r : Requestor.State) (n : LNode) :
     · split <;> exact ⟨rfl, rfl, rfl⟩
     · exact ⟨rfl, rfl, rfl⟩
 
-theorem PQ_pres (lt : LT) : PresAt (PQ lt) := by
+theorem PQ_pres (lt : LT) (st0 : List (Cid × Blk)) : PresAt (PQ lt st0) := by
   intro r n rest r1 ev1 res r2 evs hp htodo hln hh
   obtain ⟨⟨loaded, hq⟩, hc, hph⟩ := hp
-  have hs := (Q_loadNode lt r loaded n rest hq htodo).2 res (by rw [hln])
+  have hs := (Q_loadNode lt st0 r loaded n rest hq htodo).2 res (by rw [hln])
   have hc1 := loadNode_ctx r n
   rw [hln] at hs hc1
   simp only at hs hc1
@@ -735,10 +814,10 @@ theorem PQ_pres (lt : LT) : PresAt (PQ lt) := by
   obtain ⟨f1, f2, f3, f4⟩ := handle_true_frame r1 n rest res r2 evs hh
   exact ⟨hs, by rw [f3, hc1.1]; exact hc, by rw [f4, hc1.2.1]; exact hph⟩
 
-theorem PQ_wake (lt : LT) : PresWakeAt (PQ lt) := by
+theorem PQ_wake (lt : LT) (st0 : List (Cid × Blk)) : PresWakeAt (PQ lt st0) := by
   intro r l1 res n rest r2 evs hp htodo hw hh
   obtain ⟨⟨loaded, hq⟩, hc, hph⟩ := hp
-  have hs := (Q_wake lt r loaded hq).2 l1 res n rest hw htodo
+  have hs := (Q_wake lt st0 r loaded hq).2 l1 res n rest hw htodo
   rw [hh] at hs
   obtain ⟨f1, f2, f3, f4⟩ := handle_true_frame _ n rest res r2 evs hh
   exact ⟨hs, by rw [f3]; exact hc, by rw [f4]; exact hph⟩
@@ -802,15 +881,15 @@ structure Parked (rP : Requestor.State) (loaded : LT) (n : LNode) (rest : LT) : 
   held : ∀ m ∈ loaded, holds rP.L.store m.cid = true
 
 /-- the resumed executor before it has gone online again: every load so far was delivered -/
-structure SR (lt : LT) (r : Requestor.State) (loaded : LT) : Prop where
-  q : Q lt r loaded
+structure SR (lt : LT) (st0 : List (Cid × Blk)) (r : Requestor.State) (loaded : LT) : Prop where
+  q : Q lt st0 r loaded
   nb : r.nBlocks = loaded.length
   run : r.phase = .running
   unsent : r.requestSent = false
   closed : r.L.isOpen = false
   ctx : r.ctxCancelled = false
 
-theorem Q.unique {lt : LT} {r : Requestor.State} {a b : LT} (h : Q lt r a) (hb : lt = b ++ r.todo) : a = b := by
+theorem Q.unique {lt : LT} {st0 : List (Cid × Blk)} {r : Requestor.State} {a b : LT} (h : Q lt st0 r a) (hb : lt = b ++ r.todo) : a = b := by
   have := h.split
   rw [hb] at this
   exact (List.append_cancel_right this).symm
@@ -825,7 +904,7 @@ theorem setOnline_true_closed (l : Loader.State) (h : l.isOpen = false) :
     left-over queue items or from the local store), misses the next node `n` locally, goes online,
     sends the request with do-not-send-first-blocks = max(user value, blocks loaded) as its LAST
     report, and parks in the retried load of `n` — in a state satisfying (i), (ii), (iii). -/
-theorem drive_reopen (lt : LT) : ∀ (fuel : Nat) (r : Requestor.State) (loaded : LT), SR lt r loaded →
+theorem drive_reopen (lt : LT) (st0 : List (Cid × Blk)) : ∀ (fuel : Nat) (r : Requestor.State) (loaded : LT), SR lt st0 r loaded →
     sentNews (drive fuel r).2 = [] ∨
     ∃ extra n rest evs, (drive fuel r).2 = evs ++ [Ev.sentNew (max r.userSkip (loaded ++ extra).length)] ∧
       sentNews evs = [] ∧ resultsOf evs = (extra.map (fun m => (m, true))).map keyOf ∧
@@ -844,10 +923,11 @@ theorem drive_reopen (lt : LT) : ∀ (fuel : Nat) (r : Requestor.State) (loaded 
       have hlrec := load_record_done r.L n.path n.cid
       have hlp := load_pending r.L n.path n.cid
       have hlo := load_isOpen r.L n.path n.cid
+      have hso := load_store_origin r.L n.path n.cid
       unfold loadNode
-      generalize Loader.load r.L n.path n.cid = ld at hlr hlrec hlp hlo
+      generalize Loader.load r.L n.path n.cid = ld at hlr hlrec hlp hlo hso
       obtain ⟨l1, out⟩ := ld
-      simp only at hlr hlrec hlp hlo
+      simp only at hlr hlrec hlp hlo hso
       cases out with
       | blocked => left; rfl
       | done res =>
@@ -875,16 +955,16 @@ theorem drive_reopen (lt : LT) : ∀ (fuel : Nat) (r : Requestor.State) (loaded 
           · -- delivered: the executor goes on
             rw [handle_data _ n rest res he]
             simp only
-            have hq2 : ∃ loaded', Q lt (handle { r with L := l1 } n rest res).1 loaded' :=
-              Q_after lt r loaded n rest hs.q htodo _ res rfl rfl rfl
-                (fun hr hn => by simp only; rw [g1, (hs.q.rl hr hn).recd]) g2 g3 g4
+            have hq2 : ∃ loaded', Q lt st0 (handle { r with L := l1 } n rest res).1 loaded' :=
+              Q_after lt st0 r loaded n rest hs.q htodo _ res rfl rfl rfl
+                (fun hr hn => by simp only; rw [g1, (hs.q.rl hr hn).recd]) g2 g3 g4 hso
             rw [handle_data _ n rest res he] at hq2
             simp only at hq2
             obtain ⟨loaded', hq'⟩ := hq2
             have hl' : loaded' = loaded ++ [n] :=
               hq'.unique (by simp only; rw [hs.q.split, htodo]; simp)
             subst hl'
-            have hs2 : SR lt { r with L := l1, todo := rest, nBlocks := r.nBlocks + 1 } (loaded ++ [n]) :=
+            have hs2 : SR lt st0 { r with L := l1, todo := rest, nBlocks := r.nBlocks + 1 } (loaded ++ [n]) :=
               ⟨hq', by simp [hs.nb], hs.run, hs.unsent, by simp only; rw [hlo]; exact hs.closed, hs.ctx⟩
             rcases ih _ _ hs2 with hno | ⟨extra, n', rest', evs, h1, h2, h3, h4, h5⟩
             · left
@@ -1097,11 +1177,11 @@ namespace GS.C06
 open GS.Loader GS.Requestor GS.PauseResume
 
 /-- `PQ` + the user's skip value -/
-def PQU (lt : LT) (u : Nat) (r : Requestor.State) : Prop := PQ lt r ∧ r.userSkip = u
+def PQU (lt : LT) (st0 : List (Cid × Blk)) (u : Nat) (r : Requestor.State) : Prop := PQ lt st0 r ∧ r.userSkip = u
 
-theorem PQU_pres (lt : LT) (u : Nat) : PresAt (PQU lt u) := by
+theorem PQU_pres (lt : LT) (st0 : List (Cid × Blk)) (u : Nat) : PresAt (PQU lt st0 u) := by
   intro r n rest r1 ev1 res r2 evs hp htodo hln hh
-  refine ⟨PQ_pres lt r n rest r1 ev1 res r2 evs hp.1 htodo hln hh, ?_⟩
+  refine ⟨PQ_pres lt st0 r n rest r1 ev1 res r2 evs hp.1 htodo hln hh, ?_⟩
   have h1 := (loadNode_ctx r n).2.2
   have h2 := handle_us r1 n rest res
   rw [hln] at h1
@@ -1109,9 +1189,9 @@ theorem PQU_pres (lt : LT) (u : Nat) : PresAt (PQU lt u) := by
   simp only at h1 h2
   rw [h2, h1]; exact hp.2
 
-theorem PQU_wake (lt : LT) (u : Nat) : PresWakeAt (PQU lt u) := by
+theorem PQU_wake (lt : LT) (st0 : List (Cid × Blk)) (u : Nat) : PresWakeAt (PQU lt st0 u) := by
   intro r l1 res n rest r2 evs hp htodo hw hh
-  refine ⟨PQ_wake lt r l1 res n rest r2 evs hp.1 htodo hw hh, ?_⟩
+  refine ⟨PQ_wake lt st0 r l1 res n rest r2 evs hp.1 htodo hw hh, ?_⟩
   have h2 := handle_us { r with L := l1 } n rest res
   rw [hh] at h2
   simp only at h2
@@ -1128,7 +1208,7 @@ theorem pause_point (st : List (Cid × Blk)) (lt : LT) (u k : Nat) (m1 : List Re
     (hpaused : (PauseResume.exchange st lt u [k] (m1.map toOp ++ [toOp M])).1.paused = true) :
     ∃ r' e0, PauseResume.exchange st lt u [k] (m1.map toOp ++ [toOp M]) =
         ((stopForPause (hooked [k] r')).1, e0 ++ [Ev.sentCancel]) ∧
-      r'.nBlocks = k ∧ PQU lt u r' := by
+      r'.nBlocks = k ∧ PQU lt st u r' := by
   have hex : ∀ ms, Requestor.exchange st lt u ms =
       ((feed (Requestor.request { L := { store := st } } lt u).1 ms).1,
         (Requestor.request { L := { store := st } } lt u).2 ++ (feed (Requestor.request { L := { store := st } } lt u).1 ms).2) := by
@@ -1145,7 +1225,7 @@ theorem pause_point (st : List (Cid × Blk)) (lt : LT) (u k : Nat) (m1 : List Re
   rw [hq] at hreq
   simp only at hreq
   have hrun := run_notyet k m1 s0 hpre
-  have hQ1 := feed_Q lt m1 s0 hQ0
+  have hQ1 := feed_Q lt st m1 s0 hQ0
   have hU1 : (feed s0 m1).1.userSkip = u := by rw [feed_us]; exact hU0
   unfold PauseResume.exchange at hpaused ⊢
   rw [hreq] at hpaused ⊢
@@ -1169,12 +1249,12 @@ theorem pause_point (st : List (Cid × Blk)) (lt : LT) (u k : Nat) (m1 : List Re
       simpa using this
     obtain ⟨loaded1, hq1⟩ := hQ1
     have hfr := applyStatus_frameQ { (feed s0 m1).1 with L := Loader.ingest (feed s0 m1).1.L M.md M.blocks } M.status
-    have hp : PQU lt u (applyStatus { (feed s0 m1).1 with L := Loader.ingest (feed s0 m1).1.L M.md M.blocks } M.status) := by
-      refine ⟨⟨⟨loaded1, ingestStatus_Q lt _ loaded1 hq1 _ _ _⟩, ?_, ?_⟩, ?_⟩
+    have hp : PQU lt st u (applyStatus { (feed s0 m1).1 with L := Loader.ingest (feed s0 m1).1.L M.md M.blocks } M.status) := by
+      refine ⟨⟨⟨loaded1, ingestStatus_Q lt st _ loaded1 hq1 _ _ _⟩, ?_, ?_⟩, ?_⟩
       · rw [applyStatus_ctx _ _ hfail]; exact hctx
       · rw [hfr.2.2.1]; exact hrun1
       · rw [hfr.2.2.2.2.2.2.2.2]; exact hU1
-    have hsplit := deliver_splitAt k (PQU lt u) (PQU_pres lt u) (PQU_wake lt u) (feed s0 m1).1
+    have hsplit := deliver_splitAt k (PQU lt st u) (PQU_pres lt st u) (PQU_wake lt st u) (feed s0 m1).1
       M.fromPeer0 M.known M.status M.md M.blocks hpre hp
     rcases hsplit with h | ⟨r', e1, f', hk, _, hP', hX, _⟩
     · exfalso
@@ -1189,27 +1269,27 @@ theorem pause_point (st : List (Cid × Blk)) (lt : LT) (u k : Nat) (m1 : List Re
     `extra` further blocks from left-over queue items / the local store — in the parked state right
     after going online again, its last report being the new request with
     do-not-send-first-blocks = max(user value, blocks loaded). -/
-theorem unpause_reopen (lt : LT) (u k : Nat) (r' : Requestor.State) (loaded : LT) (hP : PQU lt u r')
-    (hq : Q lt r' loaded) (hk : r'.nBlocks = k) (hlen : loaded.length = k) :
+theorem unpause_reopen (lt : LT) (st0 : List (Cid × Blk)) (u k : Nat) (r' : Requestor.State) (loaded : LT) (hP : PQU lt st0 u r')
+    (hq : Q lt st0 r' loaded) (hk : r'.nBlocks = k) (hlen : loaded.length = k) :
     sentNews (PauseResume.unpause (stopForPause (hooked [k] r')).1).2 = [] ∨
     ∃ extra n rest evs rP,
       PauseResume.unpause (stopForPause (hooked [k] r')).1 =
         (hooked [k] rP, evs ++ [Ev.sentNew (max u (loaded ++ extra).length)]) ∧
       sentNews evs = [] ∧ resultsOf evs = (extra.map (fun m => (m, true))).map keyOf ∧
-      lt = (loaded ++ extra) ++ n :: rest ∧ Parked rP (loaded ++ extra) n rest := by
+      lt = (loaded ++ extra) ++ n :: rest ∧ Parked rP (loaded ++ extra) n rest ∧ QE lt st0 rP := by
   obtain ⟨⟨_, hctx, hrun⟩, hus⟩ := hP
   rw [unpause_at k r' hrun hk]
   have f := setOnline_frame r'.L false
-  have hs : SR lt (unsent { r' with L := Loader.setOnline r'.L false }) loaded := by
+  have hs : SR lt st0 (unsent { r' with L := Loader.setOnline r'.L false }) loaded := by
     refine ⟨hq.frame rfl rfl (fun h => h) f.1 f.2.1 (setOnline_record _ _) f.2.2, ?_, hrun, rfl, ?_, hctx⟩
     · show r'.nBlocks = loaded.length
       omega
     · show (Loader.setOnline r'.L false).isOpen = false
       unfold Loader.setOnline; simp
-  rcases drive_reopen lt (fuelFor r') _ loaded hs with h | ⟨extra, n, rest, evs, h1, h2, h3, h4, h5⟩
+  rcases drive_reopen lt st0 (fuelFor r') _ loaded hs with h | ⟨extra, n, rest, evs, h1, h2, h3, h4, h5⟩
   · left; exact h
   · right
-    refine ⟨extra, n, rest, evs, _, ?_, h2, h3, h4, h5⟩
+    refine ⟨extra, n, rest, evs, _, ?_, h2, h3, h4, h5, drive_Q lt st0 _ _ ⟨loaded, hs.q⟩⟩
     rw [h1]
     have : (unsent { r' with L := Loader.setOnline r'.L false }).userSkip = u := hus
     rw [this]
